@@ -2,6 +2,7 @@ package main
 
 import (
 	"go/ast"
+	"go/token"
 	"strings"
 )
 
@@ -316,6 +317,68 @@ func genC16(g *gen) {
 		g.line("Definition gen_relay_first_%s : bool := %s.", h.name, coqBool(ok))
 		g.line("Definition gen_relay_match_returns_%s : bool := %s.", h.name, coqBool(firstRelay >= 0 && relayReturns))
 	}
+
+	// the relay branch of every *_OPEN handler: the entry is inserted BEFORE the
+	// forwarded OPEN is written to the next hop (its answer, or the next hop's
+	// disconnect, may be handled concurrently), it is deleted again when the
+	// write fails, and the error reply goes to the opener on the opener's id
+	for _, h := range []struct{ file, name, errCall string }{
+		{"internal/agent/agent.go", "handleStreamOpen", ""},
+		{"internal/agent/udp.go", "handleUDPOpen", "a.sendUDPOpenErr(peerID, frame.StreamID,"},
+		{"internal/agent/icmp.go", "handleICMPOpen", "a.sendICMPOpenErr(peerID, frame.StreamID,"},
+	} {
+		fd := findFunc(parseFile(h.file), "Agent", h.name)
+		insertPos, sendPos := token.NoPos, token.NoPos
+		deletes, replyOK := false, false
+		if fd != nil && fd.Body != nil {
+			ast.Inspect(fd.Body, func(n ast.Node) bool {
+				switch x := n.(type) {
+				case *ast.CallExpr:
+					t := src(x)
+					if strings.Contains(t, "Relay.Insert(") && insertPos == token.NoPos {
+						insertPos = x.Pos()
+					}
+				case *ast.IfStmt:
+					if x.Init != nil && strings.Contains(src(x.Init), "SendToPeer(nextHop,") && sendPos == token.NoPos {
+						sendPos = x.Pos()
+						body := src(x.Body)
+						deletes = strings.Contains(body, "Relay.Delete(relay)")
+						if h.errCall != "" {
+							replyOK = strings.Contains(body, h.errCall)
+						} else {
+							flat := strings.NewReplacer(" ", "", "\t", "").Replace(body)
+							replyOK = strings.Contains(flat, "StreamID:frame.StreamID") && strings.Contains(flat, "SendToPeer(peerID,errFrame)")
+						}
+					}
+				}
+				return true
+			})
+		}
+		before := insertPos != token.NoPos && sendPos != token.NoPos && insertPos < sendPos
+		if !before || !deletes || !replyOK {
+			g.note("%s: insert before send=%v, delete on failure=%v, error reply to the opener=%v", h.name, before, deletes, replyOK)
+		}
+		g.line("Definition gen_open_inserts_before_send_%s : bool := %s.", h.name, coqBool(before))
+		g.line("Definition gen_open_deletes_on_send_failure_%s : bool := %s.", h.name, coqBool(deletes))
+		g.line("Definition gen_open_error_reply_to_opener_%s : bool := %s.", h.name, coqBool(replyOK))
+	}
+	// peer.Manager.handleDisconnect: a connection that is no longer registered
+	// (local Disconnect / DisconnectAll unregister before closing) is NOT stale:
+	// the staleness test is disconnectHandled || (ok && existing != conn)
+	staleOK := false
+	if fd := findFunc(parseFile("internal/peer/manager.go"), "Manager", "handleDisconnect"); fd != nil {
+		ast.Inspect(fd, func(n ast.Node) bool {
+			if a, ok := n.(*ast.AssignStmt); ok && len(a.Lhs) == 1 && src(a.Lhs[0]) == "stale" && len(a.Rhs) == 1 {
+				c := strings.ReplaceAll(src(a.Rhs[0]), " ", "")
+				staleOK = c == "conn.disconnectHandled||(ok&&existing!=conn)"
+			}
+			return true
+		})
+	}
+	if !staleOK {
+		g.note("peer.Manager.handleDisconnect: staleness test not recognised")
+	}
+	g.line("Definition gen_unregistered_connection_still_notifies_disconnect : bool := %s.", coqBool(staleOK))
 
 	// handleStreamData: order in which the local endpoints are tried after the relay lookup
 	// codes: 1 relay, 2 exit, 3 forward, 4 file transfer, 5 shell server, 6 shell client, 7 stream manager
